@@ -38,7 +38,7 @@ def _strata(tier):
     return G.strata_grid(
         maxsizes=(2, 1, 3, 5, 6, 0, None), ms_pos=(False, True), max_ops=35 if tier == 'quick' else 60,
         weights={'call': 14, 'load': 3, 'dump': 2, 'loadk': 1, 'dumpk': 1, 'clear': 1, 'clearkeep': 2, 'awrite': 2, 'burst': 2, 'sweep': 3, 'arch_off': 1, 'arch_on': 1},
-        pool=(3, 11), prefill_pct=30, raising_pct=20)
+        pool=(3, 11), prefill_pct=30, raising_pct=20, attach_later_pct=15)
 
 
 def execute(case):
